@@ -15,6 +15,7 @@
 //!   T:c   same with a 20 s per-call timeout (never expires inside a scenario)
 //!   U:c   start call c, the server leaves the request unread (tcp/atcp)
 //!   X:c   start call c with a short timeout, server reads it, never answers: wait for expiry
+//!   XZ:c  the same with a 1 ns timeout (shorter than the write of the request itself)
 //!   XA:c  (tcp) caller parked after its timeout fired, response delivered, then entry removed
 //!   XB:c  reader parked holding c's entry, timeout expires, then the reader delivers
 //!   XC:c  reader parked with c's frame before lookup, timeout expires, then the reader looks up
@@ -372,8 +373,9 @@ impl Run {
                 else if !wait_hits(&self.p("before_write"), self.started.len() as u64, WATCHDOG) { self.note("no-before-write"); }
                 else { self.settle_unread(); }
             }
-            "X" => {
-                self.spawn_call(c, Some(SHORT_TMO), false);
+            // XZ: the same with a timeout shorter than the request write itself (1 ns)
+            "X" | "XZ" => {
+                self.spawn_call(c, Some(if op == "XZ" { Duration::from_nanos(1) } else { SHORT_TMO }), false);
                 if !(self.faulted || self.window) { self.take_request(c); }
                 self.wait_for(c);
             }
@@ -724,7 +726,7 @@ fn gen_cases(seed: u64, thorough: bool) -> Vec<String> {
     //    forced races), cancelled (plain and the two forced races), left pending; late responses
     //    for every finished call; an unknown id; residue probes; then a fresh call that must
     //    still work; optionally a fault at the end
-    let lives: &[&str] = &["ok", "X", "XA", "XB", "XC", "C", "CB", "CC", "pend", "T"];
+    let lives: &[&str] = &["ok", "X", "XA", "XB", "XC", "C", "CB", "CC", "pend", "T", "XZ"];
     let depth = if thorough { 3 } else { 2 };
     for kind in kinds {
         let total = lives.len().pow(depth as u32);
